@@ -222,6 +222,29 @@ def run_cli_process(job, home):
             "error": None if p.returncode == 0 else f"exit status {p.returncode}: {p.stderr[-300:]}"}
 
 
+# ----------------------------------------------------------------------------------- text that can be written
+def safe_text(s):
+    """`s` free of lone surrogates: a file name that is not valid UTF-8 (os.fsdecode gives it lone surrogates) is shown with
+       \\xNN for every undecodable byte, so that replay and evidence files (written as UTF-8) can carry it"""
+    try:
+        s.encode("utf-8")
+        return s
+    except UnicodeEncodeError:
+        return s.encode("utf-8", "surrogateescape").decode("utf-8", "backslashreplace")
+
+
+def sanitize(x):
+    if isinstance(x, str):
+        return safe_text(x)
+    if isinstance(x, dict):
+        return {sanitize(k): sanitize(v) for k, v in x.items()}
+    if isinstance(x, (list, tuple)):
+        return [sanitize(v) for v in x]
+    if isinstance(x, set):
+        return sorted(sanitize(v) for v in x)
+    return x
+
+
 # --------------------------------------------------------------------------------------------- snapshots
 def sha256_file(p):
     h = hashlib.sha256()
@@ -264,14 +287,14 @@ def snap_diff(before, after, dir_mtime=True):
         if a == b:
             continue
         if a is None:
-            out.append(f"created {b[0]} {k}")
+            out.append(f"created {b[0]} {safe_text(k)}")
         elif b is None:
-            out.append(f"removed {a[0]} {k}")
+            out.append(f"removed {a[0]} {safe_text(k)}")
         else:
             if a[0] == "d" and b[0] == "d" and not dir_mtime and a[:4] == b[:4]:
                 continue
             what = [n for n, x, y in zip(("kind", "size", "content", "mode", "mtime"), a, b) if x != y]
-            out.append(f"changed {k}: {','.join(what)}")
+            out.append(f"changed {safe_text(k)}: {','.join(what)}")
     return out
 
 
@@ -360,6 +383,124 @@ def namesake_tree(rng, pl, name, variant=None):
     return tree, cl
 
 
+# ---------------------------------------------------------------------- names that are NOT the recorded name
+# C14: everything written is a copy of a search-directory file WITH THE RECORDED NAME.  A lookup that compares names after a
+# lossy step (dropping what does not decode, normalising, folding case, stripping) takes these files for candidates.
+NFD_E = "e\u0301"             # 'e' + combining acute: the decomposed form (NFD); the pools' "\u00e9" is the composed form (NFC)
+OTHERNAME_FILES = ["data.bin", "\u00e9.bin", "\u00c5ngstr\u00f6m.dat", "Readme.TXT", NFD_E + "t" + NFD_E + ".txt", "x y", "track01.flac",
+                   "\ufb01le.dat"]
+
+
+def name_variants(name):
+    """{kind: another legal file name that a careless comparison takes for `name`}.  Names that are not valid UTF-8 are given
+       as os.fsdecode gives them (one lone surrogate per undecodable byte)."""
+    import unicodedata
+    esc = lambda b: bytes([b]).decode("utf-8", "surrogateescape")       # noqa: E731
+    stem, dot, ext = name.rpartition(".")
+    out = {
+        "an undecodable byte before the extension": (stem + esc(0xFF) + dot + ext) if dot and stem else name + esc(0xFF),
+        "an undecodable byte first": esc(0xFE) + name,
+        "an undecodable byte last": name + esc(0x80),
+        "a truncated multi-byte sequence inside": name[:len(name) // 2] + esc(0xC3) + name[len(name) // 2:],
+        "an over-long encoding of '.' inside": name[:1] + esc(0xC0) + esc(0xAE) + name[1:],
+        "white space appended": name + " ",
+    }
+    for form in ("NFD", "NFC", "NFKC"):
+        v = unicodedata.normalize(form, name)
+        if v != name:
+            out["other Unicode normalisation (" + form + " of the recorded name)"] = v
+            break
+    for how, v in (("swapped", name.swapcase()), ("upper", name.upper()), ("lower", name.lower())):
+        if v != name and len(v) == len(name):
+            out["other letter case (" + how + ")"] = v
+            break
+    return {k: v for k, v in out.items() if v != name and "/" not in v and "\0" not in v}
+
+
+def othername_tree(rng, pl):
+    """aimed: a directory torrent whose file names have other spellings (composed / decomposed characters, letters, an extension)"""
+    names = rng.sample(OTHERNAME_FILES, rng.choice([2, 3, 3, 4]))
+    d = rng.choice([None, None, "00_d", "Disc \u00c9"])
+    sizes = [rng.choice([100, 300, pl, pl + 5, 2 * pl + 17, pl - 1, 5000]) for _ in names]
+    return {((d, nm) if d and i % 2 else (nm,)): rng.randbytes(n) for i, (nm, n) in enumerate(zip(names, sizes))}
+
+
+# ---------------------------------------------------------------------- v1 `pieces` strings that are valid UTF-8
+# pyben returns a byte string that happens to be valid UTF-8 as str.  About one SHA-1 digest in 10**5 is valid UTF-8 with a
+# multi-byte character: then the TEXT is shorter than the 20 bytes, and code that counts or slices the text goes wrong.
+def utf8_tail(base, rng, width=8):
+    """`width` bytes t such that sha1(<what `base` has hashed> + t) is valid UTF-8 and holds a multi-byte character"""
+    n0 = rng.randrange(1 << 31)
+    for n in range(40_000_000):
+        t = b"%0*x" % (width, (n0 + n) & 0xFFFFFFFF)
+        h = base.copy()
+        h.update(t)
+        dg = h.digest()
+        if dg.isascii():
+            continue
+        try:
+            dg.decode("utf-8")
+        except UnicodeDecodeError:
+            continue
+        return t[:width]
+    raise RuntimeError("no digest that is valid UTF-8 found")
+
+
+UTF8_PIECES = "v1 `pieces` string is valid UTF-8 with multi-byte characters (pyben hands it over as text)"
+
+
+def utf8_pieces_tree(rng, pl):
+    """sizes and names of a small v1 payload (1-4 pieces) for retune_utf8: (single, tree)"""
+    small = lambda: rng.choice([9, 100, 300, 5000, pl // 2])       # noqa: E731
+    shape = rng.choice(["single", "single", "boundary", "straddle", "many", "two-piece files"])
+    if shape == "single":
+        return True, {(): rng.randbytes(rng.choice([100, 5000, pl, pl + 300, 2 * pl, 2 * pl + 4000]))}
+    if shape == "boundary":          # the first file ends exactly on a piece boundary
+        sizes = [rng.choice([pl, pl, 2 * pl]), rng.choice([2700, small(), pl])] + ([small()] if rng.random() < 0.4 else [])
+    elif shape == "straddle":        # pieces straddle files
+        sizes = [pl + 5, 300, pl - 100] if rng.random() < 0.5 else [small(), pl, small()]
+    elif shape == "many":            # one piece holds every file
+        sizes = [small() for _ in range(rng.randrange(2, 5))]
+        while sum(sizes) > pl:
+            sizes[sizes.index(max(sizes))] = 100
+    else:
+        sizes = [pl + rng.choice([9, 700, pl - 1]), rng.choice([pl + 9, 2 * pl])]
+    names = rng.choice([["00_disc.bin", "10_notes/readme.txt", "20_x y"], ["00_a", "01_b.bin", "02_é"],
+                        ["00_d/00_a", "00_d/01_b", "50_e/00_c"], ["00_a", "50_d/00_b", "50_d/01_c", "50_d/02_d"]])
+    while len(names) < len(sizes):
+        names = names + [f"9{len(names)}_more"]
+    return False, {tuple(nm.split("/")): rng.randbytes(n) for nm, n in zip(names, sizes)}
+
+
+def retune_utf8(t, workdir, rng):
+    """t: a v1 torrent already through make_metafile.  Rewrites the last 8 bytes of every piece of the payload stream (in the
+       file order the METAFILE records) so that every SHA-1 digest is valid UTF-8 with a multi-byte character, and makes the
+       metafile again from the new payload.  The recorded `pieces` string is then checked by the reference decoder."""
+    pl = t["pl"]
+    ents = [e for e in t["layout"] if e["rel"] is not None]
+    if t["views"] != ["v1"] or t["has_pad"]:
+        raise RuntimeError("retune_utf8: a plain v1 metafile is needed")
+    stream = bytearray(b"".join(e["data"] for e in ents))
+    if 0 < len(stream) % pl < 8 or len(stream) < 8:
+        raise RuntimeError("retune_utf8: last piece shorter than 8 bytes")
+    for p0 in range(0, len(stream), pl):
+        end = min(p0 + pl, len(stream))
+        stream[end - 8:end] = utf8_tail(hashlib.sha1(bytes(stream[p0:end - 8])), rng)
+    off = 0
+    for e in ents:
+        comps = e["rel"][1:] if not t["single_by_metafile"] else ()
+        t["tree"][comps] = bytes(stream[off:off + e["length"]])
+        off += e["length"]
+    shutil.rmtree(os.path.join(workdir, "orig", t["name"]), ignore_errors=True)
+    if os.path.isfile(os.path.join(workdir, "orig", t["name"])):
+        os.remove(os.path.join(workdir, "orig", t["name"]))
+    make_metafile(t, workdir)
+    pcs = t["meta"][b"info"][b"pieces"]
+    if len(pcs.decode("utf-8")) >= len(pcs) or len(pcs) != 20 * ((len(stream) + pl - 1) // pl):       # raises if not valid UTF-8
+        raise RuntimeError("retune_utf8: the recorded pieces string is not the aimed one")
+    return len(pcs) // 20
+
+
 def gen_payload(rng, pl, idx):
     """returns (name, single, tree {comps: bytes}, classes)"""
     r = rng.random()
@@ -401,7 +542,7 @@ def gen_payload(rng, pl, idx):
     d0, d1, sub = rng.choice(["00_d", "00_d", "00_disc..1"]), rng.choice(["50_e", "50_e", "50_e.."]), rng.choice(["00_sub", "00_sub", "00_..sub"])
     tree = {}
     for i, s in enumerate(sizes):
-        fname = f"{i:02d}_" + rng.choice(["a", "b.bin", "é", "x y", "k", "wait....bin", "v..2"])
+        fname = f"{i:02d}_" + rng.choice(["a", "b.bin", "é", "x y", "k", "wait....bin", "v..2", NFD_E + ".bin"])
         if grouping == "flat":
             comps = (fname,)
         elif grouping == "one-dir":
@@ -681,7 +822,13 @@ def gen_case(case_seed, profile, workdir, force_mode=None):
     named like the torrent beside other files and directories, or a SUB-DIRECTORY named like the torrent),
     'scale:<shape>:<kind>' / 'scale14:...' (the first torrent is a payload at SCALE: piece lengths 256 KiB .. 16 MiB and
     candidates of 1 .. 9 MiB -- shapes g<i>: harness/scale.py -- aimed at 1 / 4 / 8 MiB windows; see scale_payload / scale_plan; decoys as
-    in c13 / c14).
+    in c13 / c14), 'utf8pieces' (the first torrent is a plain v1 torrent of 1-4 pieces whose recorded `pieces` string is valid
+    UTF-8 with multi-byte characters -- pyben hands it over as text; intact copies and decoys as in c13), 'othername' (C14 only:
+    for some files the RIGHT bytes lie in the search directories only under ANOTHER name -- the recorded name with bytes that
+    are not valid UTF-8 put in, in the other Unicode normalisation, in another letter case, with white space appended -- while the
+    recorded name belongs to a wholly different same-size decoy or to no file; a small share of the c14 / scale14 cases as well),
+    'metafolder' (C14 only: the metafile lies in a folder NEXT TO ITS OWN PAYLOAD, the usual `create` layout, and that folder --
+    or the metafile in it -- is what -m names; for some files the search directories given with -c hold only decoys or nothing).
     Everything is derived from case_seed.  Files are written under workdir.
     force_mode='cli-proc': the unpatched command line in a fresh interpreter (enumeration order of the filesystem).
     """
@@ -753,6 +900,12 @@ def gen_case(case_seed, profile, workdir, force_mode=None):
             if rng.random() < 0.4:
                 tree[tuple(c.split("/"))] = rng.randbytes(rng.choice([1, 300, pl + 7]))
             pcl = {"nested" if "/" in b else "flat", "structured layout"}
+        if profile == "utf8pieces" and i == 0:
+            kind = rng.choice(["v1", "ref1"])
+            single, tree = utf8_pieces_tree(rng, pl)
+            name, pcl = (f"single{i}.bin" if single else f"tor{i}"), ({"single file"} if single else {"structured layout"})
+        if profile == "othername" and i == 0:
+            name, single, tree, pcl = f"tor{i}", False, othername_tree(rng, pl), {"structured layout"}
         if profile == "d28" and single:
             name, single, tree = f"tor{i}", False, {("00_a",): rng.randbytes(100), ("01_b",): rng.randbytes(pl + 200),
                                                      ("02_c",): rng.randbytes(300)}
@@ -766,6 +919,12 @@ def gen_case(case_seed, profile, workdir, force_mode=None):
             t["order"] = order
             cl.add("v1 files not in sorted order")
         make_metafile(t, workdir)
+        if profile == "utf8pieces" and i == 0:
+            k = retune_utf8(t, workdir, rng)
+            cl.update({UTF8_PIECES, UTF8_PIECES + (": one piece" if k == 1 else ": several pieces")})
+        if profile == "metafolder":
+            # the usual `create` layout: <folder>/<name>.torrent next to <folder>/<name>
+            trees.write_tree(os.path.join(workdir, "meta", name), tree)
         torrents.append(t)
         cl.update(pcl)
         cl.add("metafile " + kind)
@@ -788,6 +947,8 @@ def gen_case(case_seed, profile, workdir, force_mode=None):
             return rng.randrange(0, root + 1), ("9" if rev else "1")
         return rng.randrange(root, nroots), ("1" if rev else "9")
     absent_li = before_absent_li = None
+    case["carried"] = []
+    wanted_names = {x["rel"][-1] for t in torrents for x in t["layout"] if x["rel"]}
     if profile == "absent":
         # the LATER file of a piece that spans two files: its name is wanted by no other entry and is found nowhere
         lay = torrents[0]["layout"]
@@ -806,6 +967,48 @@ def gen_case(case_seed, profile, workdir, force_mode=None):
                 e["intact_at"] = None
                 case["absent_name"] = "/".join(e["rel"])
                 cl.add("candidates: a file name that exists nowhere in the search directories")
+                continue
+            # ---- the RIGHT bytes only under ANOTHER name (C14: a written file is a copy of a file WITH THE RECORDED NAME)
+            carried = len(data) > 0 and ((profile == "othername" and (not case["carried"] or rng.random() < 0.5)) or
+                                         (profile in ("c14", "scale14") and rng.random() < 0.06))
+            if carried:
+                variants = {k: v for k, v in name_variants(fname).items() if v not in wanted_names}
+                how = rng.choice(sorted(variants))
+                root = rng.randrange(nroots)
+                p = pc.place(rng, root, rng.choice(["5", None]), variants[how], data, "the right bytes under another name: " + how,
+                             min_depth=rng.choice([0, 1]))
+                e["intact_at"] = None
+                case["carried"].append({"file": "/".join(e["rel"]), "other_name": variants[how], "how": how, "path": p})
+                cl.add("candidates: the right bytes only under another name -- " + how)
+                r = rng.random()
+                if r < 0.5:
+                    r2, band = spot(rng.choice(["before", "after"]), root)
+                    q = pc.place(rng, r2, band, fname, wholly_different(data, rng.randrange(251)), "same-size decoy", 1)
+                    case["decoys"].append({"t": ti, "l": li, "kind": "same-size", "path": q})
+                    cl.add("candidates: the recorded name belongs to a wholly wrong same-size decoy, the right bytes to another name")
+                elif r < 0.65:
+                    q = pc.place(rng, rng.randrange(nroots), None, fname, rng.randbytes(len(data) + rng.choice([1, 40])), "different-size decoy")
+                    case["decoys"].append({"t": ti, "l": li, "kind": "different-size", "path": q})
+                    cl.add("candidates: the recorded name belongs to a file of another size, the right bytes to another name")
+                else:
+                    cl.add("candidates: no file has the recorded name, the right bytes lie under another name")
+                continue
+            # ---- the metafile lies next to its own payload (-m folder); the -c trees hold only decoys of this file, or nothing
+            if profile == "metafolder" and (rng.random() < 0.65 or (len(data) > 0 and not case.get("outside_only"))):
+                e["intact_at"] = None
+                case.setdefault("outside_only", []).append("/".join(e["rel"]))
+                r = rng.random()
+                if r < 0.5 and len(data) > 0:
+                    q = pc.place(rng, rng.randrange(nroots), rng.choice(["1", "9", None]), fname, wholly_different(data, rng.randrange(251)),
+                                 "same-size decoy")
+                    case["decoys"].append({"t": ti, "l": li, "kind": "same-size", "path": q})
+                    cl.add("-m folder holds the payload: the -c trees hold only a wholly wrong same-size decoy of a file")
+                elif r < 0.65:
+                    q = pc.place(rng, rng.randrange(nroots), None, fname, rng.randbytes(len(data) + rng.choice([1, 40])), "different-size decoy")
+                    case["decoys"].append({"t": ti, "l": li, "kind": "different-size", "path": q})
+                    cl.add("-m folder holds the payload: the -c trees hold only a file of another size for a file")
+                else:
+                    cl.add("-m folder holds the payload: the -c trees hold nothing of a file")
                 continue
             want_same = len(data) > 0 and rng.random() < 0.30 and n_samesize < 5
             # aimed: the file that follows a file ending exactly on a piece boundary
@@ -873,17 +1076,27 @@ def gen_case(case_seed, profile, workdir, force_mode=None):
         with open(fp, "wb") as fd:
             fd.write(data)
     # a search "directory" may be a plain file: point the search straight at the intact copy of a single file torrent
-    if nb == 1 and torrents[0]["single_by_metafile"] and not case["decoys"] and rng.random() < 0.5:
+    if nb == 1 and torrents[0]["single_by_metafile"] and not case["decoys"] and profile != "metafolder" and rng.random() < 0.5:
         e = torrents[0]["layout"][0]
-        case["search"] = [os.path.join(case["search"][e["intact_at"][0]], *e["intact_at"][1:])]
-        case["search_is_file"] = True
-        cl.add("search root is a file")
+        at = e["intact_at"] or (case["carried"] and case["carried"][0]["path"])
+        if at:
+            case["search"] = [os.path.join(case["search"][at[0]], *at[1:])]
+            case["search_is_file"] = True
+            cl.add("search root is a file" + ("" if e["intact_at"] else " that has another name than the recorded one"))
 
     # ---- job
     metas = [t["metafile"] for t in torrents]
     if nb > 1 and rng.random() < 0.5:
         metas = [os.path.join(workdir, "meta")]
         cl.add("metafiles given as a directory")
+    if profile == "metafolder":
+        if force_mode != "cli-proc":
+            case["mode"] = "cli" if rng.random() < 0.75 else "api"
+        if rng.random() < 0.8:
+            metas = [os.path.join(workdir, "meta")]
+            cl.add("-m names the FOLDER that holds the metafile next to its own payload; payload files absent from the -c trees")
+        else:
+            cl.add("-m names the metafile, which lies next to its own payload; payload files absent from the -c trees")
     case["metafiles"] = metas
     case["dest"] = os.path.join(workdir, "out", "dest")
     dd = rng.random()
@@ -984,6 +1197,15 @@ def job_of(case, jid=0):
 
 
 def case_summary(case):
+    out = _case_summary(case)
+    if case.get("carried"):
+        out["right_bytes_only_under_another_name"] = [{k: c[k] for k in ("file", "other_name", "how")} for c in case["carried"]]
+    if case.get("outside_only"):
+        out["in_the_metafile_folder_but_in_no_search_directory"] = case["outside_only"]
+    return sanitize(out)           # names that are not valid UTF-8 are shown with \xNN
+
+
+def _case_summary(case):
     return {"case_seed": case["seed"], "profile": case["profile"], "mode": case["mode"], "order": case["order"],
             "dest_arg": case["dest_arg"], "cwd": case["cwd"],
             "metafiles": [os.path.relpath(m, case["workdir"]) for m in case["metafiles"]],
@@ -1301,7 +1523,8 @@ def match_v1_tie(ctx, model_ok):
             fnames = [f["filename"] for f in m.files]
             fmf = ";".join(hx(nm) + "=" + ",".join(hx(loc) + ":" + oracle.read(loc).hex() for loc, _sz in cs)
                            for nm, cs in fm.items()) or "-"
-            lines.append((str(pl), ",".join(map(str, sizes)), hexlist(fulls), hexlist(fnames), m.pieces.hex(), fmf))
+            # (hx: a `pieces` value left as text -- pyben hands valid UTF-8 over as str -- goes to the model as the bytes it stands for)
+            lines.append((str(pl), ",".join(map(str, sizes)), hexlist(fulls), hexlist(fnames), hx(m.pieces), fmf))
             impl.append(outcome + "|" + (",".join(hx(a) + ">" + hx(b) for a, b in calls) or "-"))
             descs.append({"pl": pl, "sizes": sizes, "files": [f"{d}/{nm}" for d, nm in zip(dirs, names)], "candidates": sorted(kinds)})
             cl = ["match_v1 tie"] + ["match_v1 tie: candidate " + x for x in sorted(kinds)]
